@@ -23,6 +23,7 @@ from harness import pipeline as PL
 from harness.fill_common import KEYS
 from symnum import sym as S, solver as Z, executor as X
 from symnum.sym import Sym, SymError, new_context, symvars
+from symnum.npproxy import patched
 
 W_LO, W_HI = 30.0, 1500.0
 T_LO, T_HI = 0.01, 3000.0
@@ -441,6 +442,85 @@ def completion_on_degenerate_strains(chk, tier, rng):
                 chk.harness_error("%s: failing path did not reproduce on the real pipeline" % name)
 
 
+def grid_settings_completion(chk, tier, rng):
+    """Loading the QHA layer completes for every documented temperature / pressure step: the real
+    QHACalculatorAdapter._load_qha_calculator and the real qha grid properties it evaluates run with DT and DELTA_P as finite-domain
+    symbolic values (the forking executor enumerates the feasible outcomes of every int() / slice step the code derives from them,
+    z3 decides feasibility); the other settings are the packaged defaults of the working tree.  The numeric work of the QHA layer
+    (reading, grid refinement, range check) is stubbed out -- only the settings arithmetic is exercised."""
+    import yaml
+    import cij.data
+    import cij.core.qha_adapter as qa
+    from fractions import Fraction as Fr
+    chk.encode(qa.QHACalculatorAdapter._load_qha_calculator)
+    with open(cij.data.get_data_fname("default/settings.yaml")) as fp:
+        defaults = yaml.load(fp, Loader=yaml.FullLoader)["qha"]["settings"]
+    ctx = new_context()
+    ctx.concretise_enabled = True
+    dts = [Fr(1, 2), Fr(5), Fr(25), Fr(100), Fr(150), Fr(250), Fr(500)] if tier == "quick" else [Fr(1, 2), Fr(1), Fr(5), Fr(20), Fr(25), Fr(50), Fr(100), Fr(150), Fr(200), Fr(250), Fr(300), Fr(500)]
+    dps = [Fr(1, 10), Fr(1, 2), Fr(1), Fr(2), Fr(5)]
+    DT = ctx.var("DT", positive=True, domain=dts)
+    DP = ctx.var("DELTA_P", positive=True, domain=dps)
+    settings = dict(defaults)
+    settings.update(DT=DT, DELTA_P=DP, NT=3, NTV=4)
+
+    class Quiet(qa.QHACalculator):
+        def read_input(self, x):
+            pass
+
+        def refine_grid(self):
+            pass
+
+        def desired_pressure_status(self):
+            pass
+        where_negative_frequencies = None
+        v_ratio = 1.2
+
+    class FakeJson:
+        @staticmethod
+        def dumps(obj, *a, **k):
+            return repr(obj)
+
+    def fn():
+        import logging
+        logging.disable(logging.CRITICAL)
+        try:
+            with patched((qa, {"QHACalculator": Quiet, "json": FakeJson})):
+                calc = qa.QHACalculatorAdapter._load_qha_calculator(dict(settings), object())
+            return len(calc.temperature_array), len(calc.desired_pressures_gpa)
+        finally:
+            logging.disable(logging.NOTSET)
+    t0 = time.time()
+    try:
+        paths = X.Explorer(max_paths=256, name="C12:grid-settings").run(fn)
+    except (SymError, X.PathBudgetExceeded) as e:
+        chk.inconclusive("grid settings", str(e))
+        return
+    failing = [p for p in paths if p.exception is not None]
+    chk.obligation("loading the QHA layer completes for every DT in %s K and DELTA_P in %s GPa (other settings: packaged defaults) [%d paths]"
+                   % ([float(x) for x in dts], [float(x) for x in dps], len(paths)), "unsat" if not failing else "sat",
+                   seconds=round(time.time() - t0, 1), kind="all-paths(finite domain)",
+                   detail=("%s: %s" % (type(failing[0].exception).__name__, str(failing[0].exception)[:100])) if failing else None)
+    chk.witness("grid settings: the loader ran to the end on at least one path (grids of %s points)" % (paths[0].result,), "sat" if any(p.exception is None for p in paths) or failing else "unsat")
+    if failing:
+        v, env = Z.satisfiable([], name="C12:grid-settings:model", conds=failing[0].path_condition())
+        dt = float((env or {}).get("DT", 150.0))
+        dp = float((env or {}).get("DELTA_P", 1.0))
+        conc = dict(defaults)
+        conc.update(DT=dt, DELTA_P=dp, NT=3, NTV=4)
+        import logging
+        logging.disable(logging.CRITICAL)
+        try:
+            with patched((qa, {"QHACalculator": Quiet})):
+                qa.QHACalculatorAdapter._load_qha_calculator(conc, object())
+            chk.harness_error("grid settings: failing path (DT=%s, DELTA_P=%s) did not reproduce" % (dt, dp))
+        except Exception as e:
+            chk.violation("grid-settings:raises", "loading the QHA layer with DT = %g K, DELTA_P = %g GPa (all other settings at the packaged defaults) raises "
+                          "%s: %s" % (dt, dp, type(e).__name__, str(e)[:100]), dict(DT=dt, DELTA_P=dp))
+        finally:
+            logging.disable(logging.NOTSET)
+
+
 def realness(chk, rng):
     """Concrete (all 15 keys): the eigen-frame the real class computes is a real array (dtype), as is the rotated strain."""
     import cij.core.phonon_contribution.shear as sh
@@ -480,6 +560,7 @@ def main():
     kernel_obligations(chk, ns, tier)
     masking_and_pipeline(chk, tier, rng)
     completion_on_degenerate_strains(chk, tier, rng)
+    grid_settings_completion(chk, tier, rng)
     realness(chk, rng)
     chk.bound(omega_cm1=[W_LO, W_HI], T_K=[T_LO, T_HI], fp="IEEE binary64, round-nearest-even", solver_timeout_s=120)
     for f in EXP_FACTS:
